@@ -110,7 +110,4 @@ def shrink_candidates(inp, grp):
 
 
 def signature(case, result):
-    for x in case["obs"].get("outs") or []:
-        if x["cached"] != x["twin"]:
-            return ("cache", x["cached"].get("status"), x["twin"].get("status"))
-    return ("cache",)
+    return case["grp"]          # one shrunk report per run is enough
